@@ -363,6 +363,28 @@ def _stress_read(sim, m, a):
     return thunk
 
 
+@op("aave.edit_risk")
+def _edit_risk(sim, m, a):
+    """The user edits the market's risk-parameter table in place (`market.risk_parameters.loc[...] = ...`): the csv is today's
+    snapshot, a back test over an earlier period wants the LTV / liquidation threshold of that time. The reference model's
+    table follows the edit (harness side, after the real edit went through)."""
+    from fractions import Fraction
+
+    from ..ref import aave as RA
+
+    t = a["token"].upper()
+    ltv, lt = int(a["ltv"]), int(a["lt"])
+
+    def thunk():
+        rp_ = m.risk_parameters
+        rp_.loc[t, "baseLTVasCollateral"] = D(ltv) / D(10000)
+        rp_.loc[t, "reserveLiquidationThreshold"] = D(lt) / D(10000)
+        RA.ref_for(sim, m).risk[t].update(ltv=Fraction(ltv, 10000), lt=Fraction(lt, 10000))
+        return [t, ltv, lt]
+
+    return thunk
+
+
 @op("broker.add")
 def _wallet_add(sim, m, a):
     t = sim.token(a["token"])
